@@ -85,6 +85,7 @@ static void c06_mutations(Buf *b, int kind, const Blob *target, const Blob *gper
     free(m);
 }
 static void scen_c06(int bases, int prefix_ops, int budget) {
+    g_gen_host_rng_ok = 1;
     Buf b = {0}; World w; memset(&w, 0, sizeof w);
     for (int h = 0; h < bases; h++) {
         tr("hist %d", h); w_reset(&w);
